@@ -201,7 +201,7 @@ _p("C04", modules=["demux", "ports", "keylog", "framing"], level="other",
    not_under_contract=["QuicSession.handle_packet's own CID learning (C02)"])
 
 
-_p("C15", modules=["keys", "quic_session_c"], level="proof",
+_p("C15", modules=["keys", "quic_session_c", "quic_tls_c"], level="proof",
    technique="contract-based deductive verification with the cryptographic primitives as uninterpreted functions; per parameter class all PRF loops unroll completely",
    level_text="For all secrets and randoms (symbolic) and every parameter class (12 cipher classes x MAC/PRF hashes; 18 representative suites x valid versions x key-log "
               "label for the installed state): the real key_derivator functions return exactly the RFC 6101 / 2246 / 5246 / 8446 schedules (master secret, key block, "
@@ -257,7 +257,7 @@ _p("C01", modules=["record_protection", "framing", "framing_unbounded", "keys", 
    composition_assumptions=["induction over the record sequence: the Decryptor's per-direction state equals the sender's after the same records"],
    not_under_contract=["Decryptor.inflate (compression)", "Session.handle_tls_client_hello (one slice)"])
 
-_p("C02", modules=["quic_session_c", "quic_keystate", "quic_dissector_c", "quic_output", "demux", "quic_pkn", "keys", "quic_varint", "quic_frame"], level="other",
+_p("C02", modules=["quic_session_c", "quic_keystate", "quic_dissector_c", "quic_tls_c", "quic_output", "demux", "quic_pkn", "keys", "quic_varint", "quic_frame"], level="other",
    technique="contract-based deductive verification of the links of the QUIC pipeline (dissector field extraction included); one bounded link",
    level_text="Links discharged on the real code: routing by connection ID / address (demux.quic_routing, any IDs incl. zero-length); header-protection removal and packet-number "
               "reconstruction (C16); keys (C15: Initial once and for all, handshake/0-RTT/1-RTT, key update generations); decrypt_packet opens each packet with the decryptor "
@@ -270,10 +270,10 @@ _p("C02", modules=["quic_session_c", "quic_keystate", "quic_dissector_c", "quic_
               "thorough tier, for arbitrary bytes (no exception, progress); QuicSession.handle_packet (every coalesced packet dissected with the CURRENT keys and suite), handle_crypto_frame "
               "(keys follow the negotiated suite) and check_key_epoch are under contract; the composition into 'one output datagram per input datagram' is on paper; AEADs are uninterpreted",
    design_ref="DESIGN.md 4 C02",
-   explanation="All links are proved per function (the CRYPTO reassembly within a bound); the end-to-end composition is a paper argument and the TLS-in-QUIC hello parsers are not under contract.",
+   explanation="All links are proved per function (the CRYPTO reassembly within a bound); the end-to-end composition is a paper argument.",
    assumptions=["struct.unpack_from splits a buffer by a format of B and <n>s items (assumed contract of the struct module)"], trusted_base=["cryptography AEADs", "struct"],
    bounded=[{"function": "QuicTlsSession.update_session", "bound": "a CRYPTO stream prefix cut into <= 3 fragments (any cut points, any order)", "counted_as": "bounded"}],
-   not_under_contract=["QuicTlsSession.handle_buffer/handle_client_hello/handle_server_hello"])
+   not_under_contract=["QuicTlsSession.get_extensions / get_quic_transport_parameters (ALPN, grease bit: not needed for the exported data)"])
 
 _p("C13", modules=["metadata", "quic_output", "tcp_output", "robustness", "record_protection"], level="other",
    technique="contract-based deductive verification: two-run (product) contract on the record handler + builder contracts parametrised by the flag",
